@@ -34,7 +34,7 @@ MUTANTS = [
     {"name": "send-skipped-for-fresh-proxy", "file": "src/coordinator/core.rs", "old": "            None => return Ok(()),\n        };\n        if let Err(err) = sender.send_meta(proxy).await {", "new": "            None => return Ok(()),\n        };\n        if proxy.get_nodes().is_empty() {\n            return Ok(());\n        }\n        if let Err(err) = sender.send_meta(proxy).await {", "expect": "C07.D5:send-skipped-only-for-unknown-proxy"},
     {"name": "synchronizer-remembers-addresses", "edits": [
         {"file": "src/coordinator/core.rs", "old": "    meta_retriever: Arc<MRetriever>,\n    sender: Arc<Sender>,\n}\n\nimpl<P: ProxiesRetriever, M: ProxyMetaRetriever, S: ProxyMetaSender>\n    ProxyMetaRespSynchronizer<P, M, S>", "new": "    meta_retriever: Arc<MRetriever>,\n    sender: Arc<Sender>,\n    seen: Arc<std::sync::Mutex<std::collections::HashSet<String>>>,\n}\n\nimpl<P: ProxiesRetriever, M: ProxyMetaRetriever, S: ProxyMetaSender>\n    ProxyMetaRespSynchronizer<P, M, S>"},
-        {"file": "src/coordinator/core.rs", "old": "            meta_retriever: Arc::new(meta_retriever),\n            sender: Arc::new(sender),\n        }", "new": "            meta_retriever: Arc::new(meta_retriever),\n            sender: Arc::new(sender),\n            seen: Arc::new(std::sync::Mutex::new(std::collections::HashSet::new())),\n        }"}],
+        {"file": "src/coordinator/core.rs", "after": "ProxyMetaSynchronizer\n    for ProxyMetaRespSynchronizer<P, M, S>", "old": "            meta_retriever: Arc::new(meta_retriever),\n            sender: Arc::new(sender),\n        }", "new": "            meta_retriever: Arc::new(meta_retriever),\n            sender: Arc::new(sender),\n            seen: Arc::new(std::sync::Mutex::new(std::collections::HashSet::new())),\n        }"}],
      "expect": "C07.D5:stateless"},
 ]
 
